@@ -251,14 +251,51 @@ theorem divUnsigned_okq {t : IntTy} {π : Policy} (w : t.WF π) (hs : t.signed =
           · intro h; simp [Dir.roundUp, h] at hup
           · intro _; exact le_of_lt ((int_lt_div hyp).mpr (by omega))
 
-/-- **partial** (`div_signed_int`): correct when the divisor is positive, or the quotient is exact,
-or no directed rounding is requested.  What is missing: `y < -1 ∧ x % y ≠ 0` under
-`ROUND_UP`/`ROUND_DOWN`, where the code is wrong. -/
-theorem divSigned_okq_partial {t : IntTy} {π : Policy} (w : t.WF π) (hs : t.signed = true) (hl : t.LargerOK)
+theorem div_lt_int_neg {x y s : Int} (hy : y < 0) : ((x : Rat) / y < s) ↔ s * y < x := by
+  have hy' : (y : Rat) < 0 := by exact_mod_cast hy
+  rw [div_lt_iff_of_neg hy']
+  exact_mod_cast Iff.rfl
+
+theorem int_lt_div_neg {x y s : Int} (hy : y < 0) : ((s : Rat) < (x : Rat) / y) ↔ x < s * y := by
+  have hy' : (y : Rat) < 0 := by exact_mod_cast hy
+  rw [lt_div_iff_of_neg hy']
+  exact_mod_cast Iff.rfl
+
+theorem div_eq_int' {x y s : Int} (hy : y ≠ 0) : ((x : Rat) / y = s) ↔ x = s * y := by
+  have hy' : (y : Rat) ≠ 0 := by exact_mod_cast hy
+  rw [div_eq_iff hy']
+  exact_mod_cast Iff.rfl
+
+/-- truncating division, any non-zero divisor: the remainder has the sign of the dividend and is
+smaller than the divisor in absolute value -/
+theorem tdiv_tmod_any (x : Int) {y : Int} (hy : y ≠ 0) :
+    y * x.tdiv y + x.tmod y = x ∧
+    (0 ≤ x → 0 ≤ x.tmod y ∧ x.tmod y < y.natAbs) ∧ (x < 0 → -(y.natAbs : Int) < x.tmod y ∧ x.tmod y ≤ 0) ∧
+    (0 < y → (0 ≤ x → 0 ≤ x.tdiv y) ∧ (x < 0 → x.tdiv y ≤ 0)) ∧
+    (y < 0 → (0 ≤ x → x.tdiv y ≤ 0) ∧ (x < 0 → 0 ≤ x.tdiv y)) := by
+  refine ⟨Int.mul_tdiv_add_tmod x y, ?_, ?_, ?_, ?_⟩
+  · intro hx
+    rcases (by omega : 0 < y ∨ y < 0) with h | h
+    · have := (tdiv_tmod_pos x h).2.1 hx; omega
+    · have := (tdiv_tmod_pos x (show 0 < -y by omega)).2.1 hx
+      rw [Int.tmod_neg] at this; omega
+  · intro hx
+    rcases (by omega : 0 < y ∨ y < 0) with h | h
+    · have := (tdiv_tmod_pos x h).2.2 hx; omega
+    · have := (tdiv_tmod_pos x (show 0 < -y by omega)).2.2 hx
+      rw [Int.tmod_neg] at this; omega
+  · intro h
+    exact ⟨fun hx => ((tdiv_tmod_pos x h).2.1 hx).2.2, fun hx => ((tdiv_tmod_pos x h).2.2 hx).2.2⟩
+  · intro h
+    have a := tdiv_tmod_pos x (show 0 < -y by omega)
+    rw [Int.tdiv_neg] at a
+    exact ⟨fun hx => by have := (a.2.1 hx).2.2; omega, fun hx => by have := (a.2.2 hx).2.2; omega⟩
+
+/-- **`div_signed_int`** (as repaired by /repo 5157d9d): every divisor, every direction -/
+theorem divSigned_okq {t : IntTy} {π : Policy} (w : t.WF π) (hs : t.signed = true) (hl : t.LargerOK)
     (hco : π.checkOverflow = true)
     (dir : Dir) {to0 x y : Int} (h0 : t.inRange to0) (hx : t.finite π x) (hy : t.finite π y)
-    (hdz : π.checkDivZero = true ∨ y ≠ 0)
-    (side : 0 < y ∨ x.tmod y = 0 ∨ dir.notRequested = true) :
+    (hdz : π.checkDivZero = true ∨ y ≠ 0) :
     OKQ t π dir (divSigned t π to0 x y dir) (divExactQ x y) := by
   unfold divSigned divExactQ
   by_cases hz : y = 0
@@ -278,6 +315,7 @@ theorem divSigned_okq_partial {t : IntTy} {π : Policy} (w : t.WF π) (hs : t.si
     · have hb1 : (y == -1) = false := by simpa using hm1
       simp only [hb1, Bool.false_eq_true, if_false]
       obtain ⟨hfq, hb2⟩ := tdiv_finite w hx hy hz hm1
+      obtain ⟨e, p, n, sp, sn⟩ := tdiv_tmod_any x hz
       split
       · rename_i hnr
         refine okq_normal w hfq rfl rfl rfl ?_ ?_ ?_
@@ -287,76 +325,125 @@ theorem divSigned_okq_partial {t : IntTy} {π : Policy} (w : t.WF π) (hs : t.si
           · exact Or.inr (Or.inr ⟨rfl, h⟩)
         · intro h; simp [Dir.notRequested, h] at hnr
         · intro h; simp [Dir.notRequested, h] at hnr
-      · rename_i hnr
-        have hnr' : dir.notRequested = false := by simpa using hnr
-        by_cases hm : x.tmod y = 0
-        · -- exact quotient, any sign of the divisor
-          have hxe : x = x.tdiv y * y := by
-            have := Int.mul_tdiv_add_tmod x y; rw [hm] at this; rw [Int.mul_comm]; omega
-          have hq : (x : Rat) / (y : Rat) = ((x.tdiv y : Int) : Rat) := by
-            have hy' : (y : Rat) ≠ 0 := by exact_mod_cast hz
-            rw [div_eq_iff hy']; exact_mod_cast hxe
-          simp only [hm, Int.lt_irrefl, if_false]
+      · by_cases hm : x.tmod y = 0
+        · have hxe : x = x.tdiv y * y := by rw [hm] at e; rw [Int.mul_comm]; omega
+          have hq : (x : Rat) / (y : Rat) = ((x.tdiv y : Int) : Rat) := (div_eq_int' hz).mpr hxe
+          simp only [hm, beq_self_eq_true, if_true]
           exact okq_normal w hfq rfl rfl rfl (Or.inr (Or.inl ⟨rfl, hq⟩)) (fun _ => le_of_eq hq) (fun _ => le_of_eq hq.symm)
-        · have hyp : 0 < y := by
-            rcases side with h | h | h
-            · exact h
-            · exact absurd h hm
-            · rw [hnr'] at h; cases h
-          obtain ⟨e, p, n⟩ := tdiv_tmod_pos x hyp
-          have hy2 : 2 ≤ y := by
-            rcases (by omega : 0 ≤ x ∨ x < 0) with hx0 | hx0
-            · have := p hx0; omega
-            · have := n hx0; omega
-          have hb3 := hb2 (Or.inl hy2)
+        · have hmb : (x.tmod y == 0) = false := by simpa using hm
+          simp only [hmb, Bool.false_eq_true, if_false]
           obtain ⟨hmin, hmax⟩ := IntTy.emin_le_emax w
           have hge := IntTy.neg_emin_ge_emax w hs
-          have hxb := hx; have hyb := hy
-          obtain ⟨hx1, hx2⟩ := hxb
-          obtain ⟨hy1, hy2'⟩ := hyb
+          obtain ⟨hx1, hx2⟩ := hx
+          obtain ⟨hy1, hy2'⟩ := hy
+          have hy2 : 2 ≤ y ∨ y ≤ -2 := by omega
+          have hb3 := hb2 hy2
           generalize x.tdiv y = q at *
           generalize x.tmod y = m at *
           have mulq : q * y = y * q := Int.mul_comm _ _
-          split
-          · rename_i hneg
-            have hx0 : x < 0 := by
-              rcases (by omega : 0 ≤ x ∨ x < 0) with hx0 | hx0
-              · have := p hx0; omega
-              · exact hx0
-            obtain ⟨m0, m1, q0⟩ := n hx0
-            unfold roundLtNoOverflow
-            split
-            · rename_i hdn
-              have hdn' : dir = Dir.down := by simpa [Dir.roundDown] using hdn
-              have e2 : (q - 1) * y = y * q - y := by ring
-              refine okq_normal w ⟨by omega, by omega⟩ rfl rfl rfl
-                (Or.inr (Or.inr ⟨rfl, by exact_mod_cast (int_lt_div (s := q - 1) hyp).mpr (by omega)⟩)) ?_ ?_
-              · intro h; rw [hdn'] at h; cases h
-              · intro _; exact le_of_lt (by exact_mod_cast (int_lt_div (s := q - 1) hyp).mpr (by omega))
-            · rename_i hdn
-              refine okq_normal w hfq rfl rfl rfl (Or.inl ⟨rfl, (div_lt_int hyp).mpr (by omega)⟩) ?_ ?_
-              · intro _; exact le_of_lt ((div_lt_int hyp).mpr (by omega))
-              · intro h; simp [Dir.roundDown, h] at hdn
-          · rename_i hneg
-            have hpos : 0 < m := by omega
-            simp only [hpos, if_true]
-            have hx0 : 0 ≤ x := by
-              rcases (by omega : 0 ≤ x ∨ x < 0) with hx0 | hx0
-              · exact hx0
-              · have := n hx0; omega
-            obtain ⟨m0, m1, q0⟩ := p hx0
-            unfold roundGtNoOverflow
-            split
-            · rename_i hup
-              have hup' : dir = Dir.up := by simpa [Dir.roundUp] using hup
-              have e2 : (q + 1) * y = y * q + y := by ring
-              refine okq_normal w ⟨by omega, by omega⟩ rfl rfl rfl
-                (Or.inl ⟨rfl, by exact_mod_cast (div_lt_int (s := q + 1) hyp).mpr (by omega)⟩) ?_ ?_
-              · intro _; exact le_of_lt (by exact_mod_cast (div_lt_int (s := q + 1) hyp).mpr (by omega))
-              · intro h; rw [hup'] at h; cases h
-            · rename_i hup
-              refine okq_normal w hfq rfl rfl rfl (Or.inr (Or.inr ⟨rfl, (int_lt_div hyp).mpr (by omega)⟩)) ?_ ?_
-              · intro h; simp [Dir.roundUp, h] at hup
-              · intro _; exact le_of_lt ((int_lt_div hyp).mpr (by omega))
+          have e1 : (q - 1) * y = y * q - y := by ring
+          have e2 : (q + 1) * y = y * q + y := by ring
+          rcases (by omega : 0 < y ∨ y < 0) with hyp | hyn
+          · -- positive divisor
+            have hyabs : (y.natAbs : Int) = y := by omega
+            rcases (by omega : 0 ≤ x ∨ x < 0) with hx0 | hx0
+            · have ⟨m0, m1⟩ := p hx0
+              have ⟨q1, q2⟩ := hb3.1 hx0
+              have hq0 := (sp hyp).1 hx0
+              have hne : (decide (m < 0) != decide (y < 0)) = false := by
+                have a : ¬ m < 0 := by omega
+                have b : ¬ y < 0 := by omega
+                simp [a, b]
+              simp only [hne, Bool.false_eq_true, if_false]
+              unfold roundGtNoOverflow
+              split
+              · rename_i hup
+                have hup' : dir = Dir.up := by simpa [Dir.roundUp] using hup
+                refine okq_normal w (s := q + 1) ⟨by omega, by omega⟩ rfl rfl rfl
+                  (Or.inl ⟨rfl, (div_lt_int (s := q + 1) hyp).mpr (by omega)⟩) ?_ ?_
+                · intro _; exact le_of_lt ((div_lt_int (s := q + 1) hyp).mpr (by omega))
+                · intro h; rw [hup'] at h; cases h
+              · rename_i hup
+                refine okq_normal w hfq rfl rfl rfl (Or.inr (Or.inr ⟨rfl, (int_lt_div hyp).mpr (by omega)⟩)) ?_ ?_
+                · intro h; simp [Dir.roundUp, h] at hup
+                · intro _; exact le_of_lt ((int_lt_div hyp).mpr (by omega))
+            · have ⟨m0, m1⟩ := n hx0
+              have ⟨q1, q2⟩ := hb3.2 hx0
+              have hq0 := (sp hyp).2 hx0
+              have hne : (decide (m < 0) != decide (y < 0)) = true := by
+                have a : m < 0 := by omega
+                have b : ¬ y < 0 := by omega
+                simp [a, b]
+              simp only [hne, if_true]
+              unfold roundLtNoOverflow
+              split
+              · rename_i hdn
+                have hdn' : dir = Dir.down := by simpa [Dir.roundDown] using hdn
+                refine okq_normal w (s := q - 1) ⟨by omega, by omega⟩ rfl rfl rfl
+                  (Or.inr (Or.inr ⟨rfl, (int_lt_div (s := q - 1) hyp).mpr (by omega)⟩)) ?_ ?_
+                · intro h; rw [hdn'] at h; cases h
+                · intro _; exact le_of_lt ((int_lt_div (s := q - 1) hyp).mpr (by omega))
+              · rename_i hdn
+                refine okq_normal w hfq rfl rfl rfl (Or.inl ⟨rfl, (div_lt_int hyp).mpr (by omega)⟩) ?_ ?_
+                · intro _; exact le_of_lt ((div_lt_int hyp).mpr (by omega))
+                · intro h; simp [Dir.roundDown, h] at hdn
+          · -- negative divisor (below -1)
+            have hyabs : (y.natAbs : Int) = -y := by omega
+            rcases (by omega : 0 ≤ x ∨ x < 0) with hx0 | hx0
+            · -- x > 0, y < 0: the quotient is negative, truncation went up
+              have ⟨m0, m1⟩ := p hx0
+              have ⟨q1, q2⟩ := hb3.1 hx0
+              have hne : (decide (m < 0) != decide (y < 0)) = true := by
+                have a : ¬ m < 0 := by omega
+                have b : y < 0 := by omega
+                simp [a, b]
+              simp only [hne, if_true]
+              have hq0 : q ≤ 0 := (sn hyn).1 hx0
+              have hstrict : -x + 1 ≤ 2 * q := by
+                have h1 : 0 ≤ (-(y + 2)) * (-q) := Int.mul_nonneg (by omega) (by omega)
+                have h2 : (-(y + 2)) * (-q) = y * q + 2 * q := by ring
+                omega
+              unfold roundLtNoOverflow
+              split
+              · rename_i hdn
+                have hdn' : dir = Dir.down := by simpa [Dir.roundDown] using hdn
+                refine okq_normal w (s := q - 1) ⟨by omega, by omega⟩ rfl rfl rfl
+                  (Or.inr (Or.inr ⟨rfl, (int_lt_div_neg (s := q - 1) hyn).mpr (by omega)⟩)) ?_ ?_
+                · intro h; rw [hdn'] at h; cases h
+                · intro _; exact le_of_lt ((int_lt_div_neg (s := q - 1) hyn).mpr (by omega))
+              · rename_i hdn
+                refine okq_normal w hfq rfl rfl rfl (Or.inl ⟨rfl, (div_lt_int_neg hyn).mpr (by omega)⟩) ?_ ?_
+                · intro _; exact le_of_lt ((div_lt_int_neg hyn).mpr (by omega))
+                · intro h; simp [Dir.roundDown, h] at hdn
+            · -- x < 0, y < 0: the quotient is positive, truncation went down
+              have ⟨m0, m1⟩ := n hx0
+              have ⟨q1, q2⟩ := hb3.2 hx0
+              have hne : (decide (m < 0) != decide (y < 0)) = false := by
+                have a : m < 0 := by omega
+                have b : y < 0 := by omega
+                simp [a, b]
+              simp only [hne, Bool.false_eq_true, if_false]
+              have hq0 : 0 ≤ q := (sn hyn).2 hx0
+              have hstrict : 2 * q + 1 ≤ -x := by
+                have h1 : 0 ≤ (-(y + 2)) * q := Int.mul_nonneg (by omega) (by omega)
+                have h2 : (-(y + 2)) * q = -(y * q) - 2 * q := by ring
+                omega
+              have hle : -(t.emin π) ≤ t.emax π + 1 := by
+                obtain ⟨hp, hr⟩ := w.half_facts
+                unfold IntTy.emin IntTy.emax IntTy.cmin IntTy.cmax b2i
+                generalize t.half = H at *
+                layout_cases t π
+              unfold roundGtNoOverflow
+              split
+              · rename_i hup
+                have hup' : dir = Dir.up := by simpa [Dir.roundUp] using hup
+                refine okq_normal w (s := q + 1) ⟨by omega, by omega⟩ rfl rfl rfl
+                  (Or.inl ⟨rfl, (div_lt_int_neg (s := q + 1) hyn).mpr (by omega)⟩) ?_ ?_
+                · intro _; exact le_of_lt ((div_lt_int_neg (s := q + 1) hyn).mpr (by omega))
+                · intro h; rw [hup'] at h; cases h
+              · rename_i hup
+                refine okq_normal w hfq rfl rfl rfl (Or.inr (Or.inr ⟨rfl, (int_lt_div_neg hyn).mpr (by omega)⟩)) ?_ ?_
+                · intro h; simp [Dir.roundUp, h] at hup
+                · intro _; exact le_of_lt ((int_lt_div_neg hyn).mpr (by omega))
 
 end PPLV.Checked
